@@ -297,7 +297,7 @@ def check(res, tier, replay=None):
             lines = ["cur 0 " + (c.tr.obs(c.sidx).hex() or "-") for c in sl]
             hx = os.path.join(d, "hx")
             os.makedirs(hx, exist_ok=True)
-            impl, model = L.run_stream_layer(prep, harness, lines, hx)
+            impl, model = L.run_stream_layer(prep, harness, lines, hx, res)
             model_by_case = {}
             for c, l, a, b in zip(sl, lines, impl + ["<missing>"] * len(lines), model + ["<missing>"] * len(lines)):
                 model_by_case[id(c)] = b
